@@ -523,6 +523,27 @@ def r116(an: Analysis, rep, V):
                 config=vname(V))
 
 
+def r117(an: Analysis, rep):
+    """The decoder rejects argument names on non-function code through the truthiness of Args: that is only a guard if len(args) counts every kind."""
+    it, _ = an.interp("from_code")
+    args_q = "code_data::Args"
+    used = None
+    for f in an.closure("from_code"):
+        for n in ast.walk(f.node):
+            if isinstance(n, ast.Assert) or (isinstance(n, ast.If) and any(isinstance(b, ast.Raise) for b in n.body)):
+                t = n.test
+                while isinstance(t, ast.UnaryOp) and isinstance(t.op, ast.Not):
+                    t = t.operand
+                if isinstance(t, ast.Name) and any(a[0] == "obj" and it.obj_class(a) == args_q for a in it.value_at(t)):
+                    used = (f, n)
+    if used is None:
+        return
+    from .common import SharedRules
+    from . import c04
+    sh = SharedRules(rep, "R11.7", "the 'no arguments on non-function code' guard tests the truthiness of Args, i.e. Args.__len__ (shared with C04's R04.7)")
+    rep.run(c04.r047, an, sh)
+
+
 def run(an: Analysis, rep):
     rep.explanation = (
         "Decides, per interpreter version: (R11.1) every returning path of the flag-word decoder is dominated by a raising test of the "
@@ -551,6 +572,7 @@ def run(an: Analysis, rep):
         rep.run(r114, an, rep, V)
         rep.run(r116, an, rep, V)
     rep.run(r115, an, rep)
+    rep.run(r117, an, rep)
     rep.stats.update(an.stats(interps))
     rep.assumptions += [
         "enum._decompose(flag, value) returns (members, not_covered) on 3.7-3.10 (parsed from each stdlib enum.py, see reference/)",
